@@ -417,6 +417,7 @@ def run(ctx):
         "alignment is asserted only while every environment answer so far was conforming",
         "read faults are offered at the first reads of each request and at the retry limit",
     ]
+    coverage["rule"] += ("; ordinary queries beyond the model board's own (QE, QN, QR, QU and look-alikes of the seven no-OK names, with and without an argument) alone, before QB, and between V and QM; faults with every class and message text pyserial's own read() / write() can raise")
     return {"part": part, "coverage": coverage, "assumptions": assumptions}
 
 
